@@ -1,5 +1,6 @@
 import Btdht.Model.Dht
 import Driver.Handler
+import Std.Data.HashMap
 namespace Btdht.Driver
 open Btdht
 
@@ -8,7 +9,8 @@ structure NDrv where
   nodes : List (Nat × DState) := []
   now : Nat := 0
   /-- `(node, aid, seq)` of the transaction ids that appeared, `#k` by first appearance -/
-  tids : List (Nat × Nat × Nat) := []
+  tids : Array (Nat × Nat × Nat) := #[]
+  tidIdx : Std.HashMap (Nat × Nat × Nat) Nat := {}
   /-- `(node, ip, secret)` of the tokens real nodes issued, `K<n>` by first appearance -/
   toks : List (Nat × Bytes × Nat) := []
   /-- a same-instant interleaving the model does not reproduce was observed: stop comparing -/
@@ -32,9 +34,9 @@ def NDrv.tidName (d : NDrv) (node : Nat) (t : InTid) : NDrv × String :=
   | .fresh aid => (d, "{" ++ s!"n{node}.a{aid}.fresh" ++ "}")
   | .sym t =>
     let key := (node, t.aid, t.seq)
-    match d.tids.findIdx? (· == key) with
+    match d.tidIdx[key]? with
     | some j => (d, s!"#{j}")
-    | none => ({ d with tids := d.tids ++ [key] }, s!"#{d.tids.length}")
+    | none => ({ d with tids := d.tids.push key, tidIdx := d.tidIdx.insert key d.tids.size }, s!"#{d.tids.size}")
 
 def NDrv.tokName (d : NDrv) (node : Nat) (b : Bytes) : NDrv × String :=
   match b with
